@@ -241,8 +241,18 @@ JudgeCrash(Sx, e) ==
   J(IF e.r.ok THEN {} ELSE {<<"C07", "mint-cannot-restart">>},
     IF e.r.ok THEN CrashOutcomes(Sx, e.a.op, e.a.a, e.a.ln) ELSE {Sx})
 
+\* C06: a structurally invalid request (hand-built JSON through the HTTP handler): never a panic, always
+\* refused with 400 and a {detail, code} body, and nothing changes
+JudgeMalformed(Sx, e) ==
+  J((IF e.r.panic THEN {<<"C06", "panic:" \o e.a.target \o ":" \o e.a.cls>>} ELSE {})
+      \cup (IF ~e.r.panic /\ e.r.status = 200 THEN {<<"C06", "malformed-request-accepted:" \o e.a.target \o ":" \o e.a.cls>>} ELSE {})
+      \cup (IF ~e.r.panic /\ e.r.status # 200 /\ (e.r.status # 400 \/ ~e.r.errshape)
+            THEN {<<"C20", "malformed-request-not-answered-400-detail-code:" \o e.a.target \o ":" \o e.a.cls>>} ELSE {}),
+    {Sx})
+
 Judge(Sx, e) ==
   CASE e.ev = "swap" -> JudgeSwap(Sx, e)
+    [] e.ev = "malformed" -> JudgeMalformed(Sx, e)
     [] e.ev = "crash" -> JudgeCrash(Sx, e)
     [] e.ev = "mintquote" -> JudgeMintQuote(Sx, e)
     [] e.ev = "settle" -> J({}, {LnSettle(Sx, e.a.q)})
